@@ -63,6 +63,13 @@ Proof.
     exact (spec_invert_inv simp_ok_range GU fresh_simp_ok x r H).
 Qed.
 
+Theorem leaf_contains t s : wf_text t -> parse t = Ret s -> Forall tilde_safe (ranges_of s) ->
+  forall v, final v -> spec_contains s v = Ret (text_sem t v).
+Proof.
+  intros W E Ht v Fv. destruct (parse_spec t W) as (s' & E' & C & M & _). rewrite E in E'. injection E' as <-.
+  rewrite (contains_spec s v C (conj (parse_simp_ok t s W E) Ht) Fv), (M v Fv). reflexivity.
+Qed.
+
 (* expressions over parsed leaves *)
 Section Leaves.
   Variable txt : nat -> stext.
